@@ -46,6 +46,7 @@ type config struct {
 	CheckLast int   `json:"checklast"`
 	Proofs    int   `json:"proofs"` // proofs mode: probes per tree state
 	BitFlips  int   `json:"bitflips"`
+	NoFast    bool  `json:"nofast"`   // open every handle without the fast index / fast storage (C25: not its subject)
 	SvSample  int   `json:"svsample"` // version steps: contents of this many retained versions are swept (0 = all); hashes always of all
 	Seed      int64 `json:"seed"`     // replay of a stored case: the seed of its sampled sweeps
 }
@@ -178,6 +179,9 @@ func (e *env) fail(act, what, detail string) *failure {
 		act = "iavl"
 	}
 	detail = fmt.Sprintf("[open with cache=%d fast=%v] %s", e.cur.Cache, e.cur.Fast, detail)
+	if len(detail) > 1200 {
+		detail = detail[:1200] + "..."
+	}
 	return &failure{key: fmt.Sprintf("%s:%s:%s", e.cfg.Prop, act, what), what: detail, step: e.idx}
 }
 
@@ -386,6 +390,9 @@ func (e *env) keyIDs(got []kv) string {
 // ------------------------------------------------------------------ one step
 
 func (e *env) open(o opt) *failure {
+	if e.cfg.NoFast {
+		o.Fast = false
+	}
 	t, err := openTree(e.cfg.Impl, e.db, o)
 	if err != nil {
 		return e.fail("Open", "error", fmt.Sprintf("opening the tree with %+v failed: %v", o, err))
